@@ -85,7 +85,7 @@ class PlaybookSerializer:
             return "ordereddict()"
         result = "ordereddict(["
         result += ", ".join(
-            "('{key}', {value})".format(key=k, value=cls._obj(v))
+            "({key}, {value})".format(key=cls._obj(k), value=cls._obj(v))
             for k, v in value.items()
         )
         result += "])"
